@@ -116,6 +116,17 @@ class Stage2Intrinsics(NumIntrinsics):
             idx = eng.need_int(st, eng.deref(st, p_index, pos_, 64), pos_, "index length")
             position = eng.need_int(st, eng.deref(st, p_position, pos_, 64), pos_, "position")
             nidx = len(eng.deref(st, p_indexes, pos_))
+            # carry contract: the kernel is REF-SCAN on this part of the message only when it is entered with the scanner
+            # state the previous call left (initially: no pending backslash, outside any string, previous byte counts as
+            # white space); the state itself is opaque here (fresh symbols), so any caller that does not hand it over
+            # unchanged breaks the precondition for some value
+            exp = st.notes.get("s1carry") or (0, 0, 1)
+            for ptr, e, what in ((p_odd, exp[0], "odd-backslash"), (p_inq, exp[1], "inside-quote"), (p_pp, exp[2], "pseudo-structural-predecessor")):
+                c = eng.deref(st, ptr, pos_, 64)
+                eq = (c == e) if (is_conc(c) and is_conc(e)) else (bv(c, 64) == bv(e, 64))
+                if not eng.oblige(st, eq, "ub", "stage-1 kernel entered with a %s carry that is not the one the previous kernel call left "
+                                  "(or the documented initial value on the first call): the scan of the rest of the message is no longer REF-SCAN" % what, pos_):
+                    return 0
             processed = 0
             arr = list(eng.deref(st, p_indexes, pos_))
             carried = eng.need_int(st, eng.deref(st, p_carried, pos_, 64), pos_, "carried")
@@ -146,9 +157,14 @@ class Stage2Intrinsics(NumIntrinsics):
             eng.store(st, p_carried, carried, pos_, 64)
             at_end = (A + processed >= len(want))
             # carries: arbitrary in the middle of a message, "outside any string" at its end (assumed by the harness: REF-SCAN ok)
-            eng.store(st, p_inq, 0 if at_end else eng.fresh("kernel.inq", 64), pos_, 64)
-            eng.store(st, p_odd, eng.fresh("kernel.odd", 64), pos_, 64)
-            eng.store(st, p_pp, eng.fresh("kernel.pp", 64), pos_, 64)
+            endq = eng.deref(st, PtrV(eng.global_obj(st, H + "verifEndInQuote"), ()), pos_)
+            c_inq = (M(64) if endq is True else 0) if at_end else eng.fresh("kernel.inq", 64)
+            c_odd = eng.fresh("kernel.odd", 64)
+            c_pp = eng.fresh("kernel.pp", 64)
+            eng.store(st, p_inq, c_inq, pos_, 64)
+            eng.store(st, p_odd, c_odd, pos_, 64)
+            eng.store(st, p_pp, c_pp, pos_, 64)
+            st.notes["s1carry"] = (c_odd, c_inq, c_pp)
             if err_at == ncall:
                 eng.store(st, p_err, eng.fresh("kernel.err", 64) | 1, pos_, 64)
                 eng.store(st, PtrV(eng.global_obj(st, H + "verifStage1ErrInjected"), ()), True, pos_)
